@@ -246,6 +246,10 @@ def s5_convert(ctx, ck):
     lay = oks[0].outcome[1][3][0]
     res = mir.strip(lay[3][lay[4].index("mappings")])
     order = [e.a for e in oks[0].events if e.kind == "loop"]
+    # every successful way out runs the same passes and returns the same list (no "simple layout" fast path beside them)
+    same = all([e.a for e in p.events if e.kind == "loop"] == order and isinstance(p.outcome[1][3][0], tuple) and p.outcome[1][3][0][0] == "agg"
+               and "mappings" in p.outcome[1][3][0][4] and mir.strip(p.outcome[1][3][0][3][p.outcome[1][3][0][4].index("mappings")]) == res for p in oks)
+    ck.ob("C13-S5", fn, "every-Ok-result-comes-out-of-the-same-passes", same, detail=None if same else "%d Ok paths, not all through loops %s" % (len(oks), order))
     conv_loop = None
     adj_loop = None
     for h in order:
@@ -884,6 +888,26 @@ def s11_dispatch(ctx, ck):
           and seen["Alias"][:3] == ("call", FLI + "convert_alias", (pay("Alias"),))
           and isinstance(seen["RepeatOnlySingle"], tuple) and seen["RepeatOnlySingle"][0] == "call" and method_name(seen["RepeatOnlySingle"][1]) == "new")
     ck.ob("C13-S11", fn, "each-kind-of-source-mapping-goes-to-its-own-converter;repeat-only-entries-produce-nothing-here", ok, detail=str(sorted(map(str, seen))))
+    # the helper convert_alias asks: true exactly for a one-element list whose element is a modifier
+    hj = FLI + "is_just_one_modifier"
+    if ctx.has_body(hj):
+        hb = ctx.body(hj)
+        ks = T("param", 1, hb.dbg.get(1, ""))
+        rows = {}
+        okh = True
+        for p in mir.walk_function(hb):
+            if p.outcome[0] != "return":
+                continue
+            one = [e.b for e in p.events if e.kind == "guard" and Walker._eq_const(e.a) is not None and mir.strip(Walker._eq_const(e.a)[0]) == T("len", ks) and Walker._eq_const(e.a)[1] == 1]
+            r = p.outcome[1]
+            if one == [True]:
+                rows["one"] = (isinstance(r, tuple) and r[0] == "call" and r[1] == FLI + "is_modifier" and isinstance(mir.strip(r[2][0]), tuple) and mir.strip(r[2][0])[0] == "index"
+                               and mir.strip(mir.strip(r[2][0])[1]) == ks and const_int(mir.strip(r[2][0])[2]) == 0)
+            elif one == [False]:
+                rows["other"] = const_int(r) == 0
+            else:
+                okh = False
+        ck.ob("C13-S11", hj, "true-exactly-for-a-single-modifier", okh and rows == {"one": True, "other": True}, detail=str(rows))
     fa = FLI + "convert_alias"
     ab = ctx.body(fa)
     al = T("param", 1, ab.dbg.get(1, ""))
